@@ -22,6 +22,23 @@ SPECS = [
 ]
 
 
+STRUCT = [
+    (('seq', [('req', ('int',)), ('req', ('octs',))]), ('rec', [('i', 5), ('o', b'a')])),
+    (('set', [('req', ('int',)), ('req', ('octs',))]), ('rec', [('i', 5), ('o', b'a')])),
+    (('seq', [('req', ('int',)), ('opt', ('octs',)), (('def', ('b', True)), ('bool',))]), ('rec', [('i', 5), ('o', b'a'), ('b', False)])),
+    (('set', [('req', ('int',)), ('opt', ('exp', (128, 0, 0), ('octs',)))]), ('rec', [('i', 5), ('o', b'a')])),
+    (('seqof', ('int',)), ('list', [('i', 1), ('i', 2)])),
+    (('setof', ('octs',)), ('list', [('o', b'a'), ('o', b'b')])),
+    (('seq', [('req', ('seq', [('req', ('null',)), ('req', ('int',))])), ('req', ('seqof', ('bool',)))]), ('rec', [('rec', [('null',), ('i', 1)]), ('list', [('b', True)])])),
+    (('choice', [('int',), ('octs',), ('seq', [('req', ('null',))])]), ('ch', 2, ('rec', [('null',)]))),
+    (('exp', (128, 0, 0), ('seq', [('req', ('int',)), ('req', ('null',))])), ('rec', [('i', 5), ('null',)])),
+    (('imp', (128, 0, 1), ('set', [('req', ('bool',)), ('req', ('int',))])), ('rec', [('b', True), ('i', 5)])),
+    (('seq', [('req', ('exp', (128, 0, 0), ('choice', [('int',), ('octs',)]))), ('req', ('null',))]), ('rec', [('ch', 0, ('i', 5)), ('null',)])),
+    (('seq', [('req', ('int',)), ('opt', ('any',))]), ('rec', [('i', 5), ('any', b'\x05\x00')])),
+    (('seqof', ('seq', [('req', ('int',)), ('req', ('int',))])), ('list', [('rec', [('i', 1), ('i', 2)]), ('rec', [('i', 3), ('i', 4)])])),
+]
+
+
 def outcome(cdc, data, spec_desc, spec_obj):
     """canonical outcome of one-shot decoding: ('ok', abs or None, rest) | ('lib', cls) | ('crash', cls) | ('bad-value', what)"""
     d = I.run_decode(cdc, data, **({'asn1Spec': spec_obj} if spec_obj is not None else {}))
@@ -80,7 +97,7 @@ def classify(oc, data, cdc):
 
 def run(ctx):
     ctx.rule = ('all byte strings of length <= 2 (quick) / <= 3 (thorough) over 18 structural octets, and mutants (bit flip, insert, delete, '
-                'tag/length rewrite, truncation, duplication) of valid encodings; primitive contents over 14 significant octets and a sweep of all 256 first contents octets of BIT STRING/OID/REAL; constructed strings holding one or two of 21 odd segments; REAL character forms over 36 texts (incl. nan, inf, underscores, blanks); BER, CER and DER decoders, one-shot and streaming; 17 guiding '
+                'tag/length rewrite, truncation, duplication) of valid encodings; primitive contents over 14 significant octets and a sweep of all 256 first contents octets of BIT STRING/OID/REAL; constructed strings holding one or two of 21 odd segments; every single structural edit (member added in front/at the end, removed, repeated, swapped, node emptied, length form switched, at every constructed node) of definite, indefinite, CER and DER encodings of 13 container types; REAL character forms over 36 texts (incl. nan, inf, underscores, blanks); 7 constrained guiding types (alone, as SEQUENCE OF member, under a violated SIZE constraint) with violating contents of 1..5000 octets; BER, CER and DER decoders, one-shot and streaming; 17 guiding '
                 'types and none; outcome must be a value object + remainder or a PyAsn1Error; reads bounded by 8*len+16; non-trivial = length >= 2')
     search_only = getattr(ctx, 'search_only', False)
     specs = [(sd, U.build_type(sd) if sd is not None else None, U.coq_ty(sd) if sd is not None else None) for sd in SPECS]
@@ -146,6 +163,29 @@ def run(ctx):
             ct = bytes([nr]) + t
             hdr = bytes([9, len(ct)]) if len(ct) < 128 else bytes([9, 0x82, len(ct) >> 8, len(ct) & 255])
             inputs.append(('str', hdr + ct, ('real',)))
+    # structural edits: valid encodings (definite, indefinite, CER, DER) of container types - all members mandatory, with
+    # OPTIONAL/DEFAULT members, nested, tagged, CHOICE - with, at every constructed node, a member added in front / at the
+    # end, removed, repeated, swapped with its neighbour, the node emptied, its length form switched
+    from harness import tlvtree
+    n_struct = 0
+    for sd, v in STRUCT:
+        try:
+            c = codec.Case(sd, v)
+        except Exception:
+            continue
+        for cdc, kw in (('BER', {}), ('BER', dict(defMode=False)), ('CER', {}), ('DER', {})):
+            e = I.run_encode(cdc, c.obj, **kw)
+            if e[0] != 'ok':
+                continue
+            try:
+                tree = tlvtree.parse(e[1])
+            except ValueError:
+                continue
+            for what, data in tlvtree.structural_edits(tree):
+                n_struct += 1
+                if ctx.tier == 'quick' and (n_struct + ctx.seed) % 2:
+                    continue
+                inputs.append(('struct', data, c, cdc))
     exprs, meta = [], []
     for item in inputs:
         data = item[1]
@@ -156,6 +196,10 @@ def run(ctx):
             sd0 = item[2]
             spec_list = [(sd0, U.build_type(sd0), U.coq_ty(sd0)), specs[0]]
             decs = [ctx.rng.choice(['BER', 'CER', 'DER'])]
+        elif item[0] == 'struct':
+            c = item[2]
+            spec_list = [(c.T, c.spec, c.cty), specs[0]]
+            decs = [item[3]] + ([ctx.rng.choice(['BER', 'CER', 'DER'])] if ctx.tier != 'quick' else [])
         else:
             c = item[2]
             spec_list = [(c.T, c.spec, c.cty), specs[0]]
@@ -174,7 +218,7 @@ def run(ctx):
                     n = reads_count(cdc, data, so)
                     if n > 8 * len(data) + 16:
                         ctx.prop_fail('decoder made %d stream reads on %d octets' % (n, len(data)), m)
-                if not search_only and sd is not None and ctx.rng.random() < (1.0 if item[0] in ('mut', 'str') else 0.35):
+                if not search_only and sd is not None and ctx.rng.random() < (1.0 if item[0] in ('mut', 'str', 'struct') else 0.35):
                     if oc[0] == 'ok':
                         lit = '(Ok (%s, %s))' % (U.coq_aval(oc[1]), cbytes(oc[2]))
                     elif oc[0] == 'bad-value':
@@ -183,6 +227,37 @@ def run(ctx):
                         lit = '(Err %s)' % oc[1]
                     exprs.append('mal_code %s (decode %s (Some %s) %s) %s' % (sc, cdc, sc, cbytes(data), lit))
                     meta.append(m)
+    # guiding types with constraints, values that violate them, contents of every size class up to a few thousand octets
+    # (a refusal has to be the library's error whatever the size of the offending value): implementation only
+    from pyasn1.type import univ as _u, constraint as _c, char as _ch
+    rng_int = _u.Integer().subtype(subtypeSpec=_c.ValueRangeConstraint(0, 10))
+    cspecs = [('INTEGER (0..10)', rng_int, 2),
+              ('INTEGER (5)', _u.Integer().subtype(subtypeSpec=_c.SingleValueConstraint(5)), 2),
+              ('OCTET STRING (SIZE(1..3))', _u.OctetString().subtype(subtypeSpec=_c.ValueSizeConstraint(1, 3)), 4),
+              ('BIT STRING (SIZE(1..3))', _u.BitString().subtype(subtypeSpec=_c.ValueSizeConstraint(1, 3)), 3),
+              ('UTF8String (SIZE(1..3))', _ch.UTF8String().subtype(subtypeSpec=_c.ValueSizeConstraint(1, 3)), 12),
+              ('PrintableString (FROM ("ab"))', _ch.PrintableString().subtype(subtypeSpec=_c.PermittedAlphabetConstraint('a', 'b')), 19),
+              ('ENUMERATED (0..10)', _u.Enumerated().subtype(subtypeSpec=_c.ValueRangeConstraint(0, 10)), 10)]
+    def _hdr(tg, n):
+        return bytes([tg, n]) if n < 128 else bytes([tg, 0x82, n >> 8, n & 255])
+    for name, so, tg in cspecs:
+        for n in (1, 2, 8, 100, 1000, 1800, 2048, 5000):
+            for fill in (0x11, 0x61, 0x7f, 0xff):
+                ct = (b'\x00' if tg == 3 else b'') + bytes([0x7f if tg in (2, 10) else fill]) + bytes([fill]) * (n - 1)
+                one = _hdr(tg, len(ct)) + ct
+                variants = [(name, so, one)]
+                for wrap, wname in ((_u.SequenceOf(componentType=so.clone() if False else so), 'SEQUENCE OF ' + name),
+                                    (_u.SequenceOf(componentType=_u.Integer() if tg in (2, 10) else so.__class__()).subtype(subtypeSpec=_c.ValueSizeConstraint(2, 3)), 'SEQUENCE (SIZE(2..3)) OF unconstrained twin of ' + name)):
+                    variants.append((wname, wrap, _hdr(0x30, len(one)) + one))
+                for vname, vspec, data in variants:
+                    for cdc in ('BER', 'DER'):
+                        d = I.run_decode(cdc, data, asn1Spec=vspec)
+                        ctx.case(('constrained', vname, cdc, n, fill), True)
+                        ctx.stats['constrained:' + ('accepted' if d[0] == 'ok' else 'library error' if I.is_library(d[1]) else 'crash')] += 1
+                        if d[0] != 'ok' and not I.is_library(d[1]):
+                            ctx.prop_fail('%s decoder let a non-library exception escape on a value violating the constraints of its guiding type: %s' % (cdc, d[1]),
+                                          {'decoder': cdc, 'spec': vname, 'bytes': data.hex(), 'contents_octets': n, 'fill': fill, 'outcome': d[1:]},
+                                          finding=classify(('crash', d[1], d[2] if len(d) > 2 else ''), data, cdc))
     if meta: ctx.sample(meta[0]); ctx.sample(meta[-1])
     if not search_only:
         codes = core.coq_codes('c08', 'Model.Dec Model.Obs', exprs)
